@@ -143,8 +143,11 @@ def step(real, model, op, universe, ctr):
     ``real`` is mutated in place (callers pass a fresh copy)."""
     import concepts
     onames, pnames = universe
-    before = visible(real)
-    clause = None
+    try:
+        before = visible(real)
+    except Exception as e:
+        return [{'clause': 'triple-readable', 'expected': 'objects/properties/bools readable',
+                 'observed': f'{type(e).__name__}: {e}'}], None
     try:
         new_model, mret = tm.apply(model, op)
         rejected = False
@@ -163,7 +166,11 @@ def step(real, model, op, universe, ctr):
     except Exception as e:  # the library's reaction is what is judged
         ret, raised = None, e
     ctr['transitions'] += 1
-    after = visible(real)
+    try:
+        after = visible(real)
+    except Exception as e:
+        bad('triple-readable', 'objects/properties/bools readable', f'{type(e).__name__}: {e}')
+        return V, new_model
     if rejected:
         ctr['rejected_calls'] += 1
         if raised is None:
@@ -182,9 +189,14 @@ def step(real, model, op, universe, ctr):
             if len(new_model[0]) > len(model[0]) or len(new_model[1]) > len(model[1]):
                 ctr['calls_creating_names'] += 1
     # (c) equality with a fresh definition built from its own triple, both directions
-    fresh = concepts.Definition([L(o) for o in after[0]], [L(p) for p in after[1]], after[2])
-    if not (real == fresh) or not (fresh == real) or (real != fresh):
-        bad('equals-fresh-from-own-triple', True, False)
+    try:
+        fresh = concepts.Definition([L(o) for o in after[0]], [L(p) for p in after[1]], after[2])
+    except Exception as e:
+        bad('equals-fresh-from-own-triple', 'a definition can be built from its own triple',
+            f'{type(e).__name__}: {e} for triple {after!r}')
+    else:
+        if not (real == fresh) or not (fresh == real) or (real != fresh):
+            bad('equals-fresh-from-own-triple', True, False)
     # (d) shape of bools
     if len(after[2]) != len(after[0]) or any(len(r) != len(after[1]) for r in after[2]):
         bad('bools-shape', [len(after[0]), len(after[1])], [len(r) for r in after[2]])
@@ -227,8 +239,10 @@ def _expand(chunk):
         for op in tm.alphabet(model, universe[0], universe[1], pool):
             real = pickle.loads(blob)
             V, new_model = step(real, model, op, universe, ctr)
-            if new_model is None:
+            if new_model is None and not V:
                 continue
+            if new_model is None:
+                new_model = model
             for v in V:
                 if len(viols) < 5:
                     v['parent'] = key
